@@ -1,7 +1,7 @@
 """Predicates for known findings: one per mechanism key.  See known.py."""
 import json
 
-from .known import pred
+from .known import pred, PREDICATES
 
 _ROWSET = ("non_qualifying_row_returned", "qualifying_row_not_returned", "count_differs_from_rows_returned", "row_duplicated_or_unknown",
            "rows_out_of_order")
@@ -361,3 +361,84 @@ def _v2_nested(prop, case, f):
     if prop != "C15" or f.get("page_version") not in (2, [1, 2]):
         return False
     return f.get("kind") in ("read_raised", "rows_differ", "row_count", "assemble_objects_return_value", "process_crash", "column_missing")
+
+
+# ----------------------------------------------------------------------------- C12: sanitizer reports
+# A sanitizer report names the faulting statement (function + .pyx line through the Cython markers of the generated C), the kind of
+# fault and - for UBSan - the operands.  That tuple IS the mechanism; the predicates below list, per known finding, the tuples that
+# belong to it, plus the input class where the driver exposes it.  A report at another statement, of another kind, or (where stated)
+# on another input class is not covered.
+
+def _san(f, san, whats, func, lines, access=None, msg=None):
+    if f.get("kind") != "sanitizer_report" or f.get("san") != san or f.get("what") not in whats:
+        return False
+    if f.get("func") != func or f.get("pyx_line") not in lines:
+        return False
+    if access is not None and f.get("access") != access:
+        return False
+    if msg is not None and not any(m in (f.get("msg") or "") for m in msg):
+        return False
+    return True
+
+
+def _thrift_big(case):
+    inner = case.get("inner") or {}
+    if case.get("driver") != "c10" or "big" not in inner or inner.get("big") == "kv_value":
+        return False
+    return inner["size"] * (1.5 if inner["big"] == "statistics_max" else 1.0) >= 499000
+
+
+def _c12(key, case, f):
+    k = f.get("kind")
+    if key == "thrift-serialisation-buffer-overflow":
+        if not _thrift_big(case):
+            return False
+        if k == "inner_oracle_failed_under_sanitised_build":
+            # under ASan the overrun lands in a red zone instead of killing the process: to_bytes then returns the truncated buffer
+            return True
+        if k != "sanitizer_report" or f.get("san") != "asan":
+            return False
+        if f.get("what") in ("heap-buffer-overflow", "memcpy-param-overlap:") and f.get("func") in ("write_thrift", "write_list") and f.get("pyx_line") in (643, 651, 692, 705):
+            return True
+        # ... and the driver's attempt to parse that truncated output back runs off its end (read side trusts the lengths it reads)
+        return f.get("what") == "heap-buffer-overflow" and f.get("access") == "READ" and f.get("func") in ("read_thrift", "read_list", "NumpyIO_read_byte", "read_unsigned_var_int")
+    if key == "bit-unpack-32bit-accumulator-width-ge-25":
+        return _san(f, "ubsan", ("shift-exponent",), "read_bitpacked", (155,), msg=("shift exponent 32",))
+    if key == "int32-shift-arithmetic-in-bit-unpacking":
+        return (_san(f, "ubsan", ("shift-base",), "read_bitpacked", (155,), msg=("by 24 places",))
+                or _san(f, "ubsan", ("shift-base", "shift-exponent", "signed-integer-overflow"), "_mask_for_bits", (66,),
+                        msg=("left shift of 1 by 31", "shift exponent 32", "-2147483648 - 1"))
+                or _san(f, "ubsan", ("shift-base",), "read_rle", (38,), msg=("by 24 places",)))
+    if key == "encode-bitpacked-32bit-accumulator-width-ge-25":
+        return _san(f, "ubsan", ("shift-base", "shift-exponent"), "encode_bitpacked", (303,))
+    if key == "write-bitpacked1-signed-char-shift":
+        return _san(f, "ubsan", ("shift-base",), "write_bitpacked1", (113,), msg=("left shift of negative value",))
+    if key == "zigzag-and-varint-signed-shifts":
+        return (_san(f, "ubsan", ("shift-base",), "long_zigzag", (520,)) or
+                _san(f, "ubsan", ("shift-base",), "read_unsigned_var_int", (184,), msg=("by 63 places",)))
+    if key == "delta-unpack-miniblock-width-ge-29":
+        return _san(f, "ubsan", ("shift-exponent",), "delta_read_bitpacked", (225,), msg=("shift exponent 64",))
+    if key == "bitpacked-run-of-width-0-consumes-one-byte":
+        return _san(f, "asan", ("heap-buffer-overflow",), "read_bitpacked", (147,), access="READ") and f.get("size") == 1
+    if key == "bit-unpack-reads-past-short-final-group":
+        if not (_san(f, "asan", ("heap-buffer-overflow",), "read_bitpacked", (155,), access="READ") and f.get("size") == 1):
+            return False
+        inner = case.get("inner") or {}
+        # only streams whose last group of 8 is not padded: what encode_bitpacked itself emits, and what impala wrote into test-data
+        return (case.get("driver") == "c11" and inner.get("fn") in ("encode_bitpacked", "writer_side")) or case.get("driver") in ("corpus", "c01")
+    if key == "delta-page-without-values-reads-a-nonexistent-block":
+        if f.get("kind") != "sanitizer_report" or f.get("san") != "asan" or f.get("what") != "heap-buffer-overflow" or f.get("access") != "READ":
+            return False
+        if f.get("func") == "delta_binary_unpack" and f.get("pyx_line") in (253, 254, 256):
+            return True
+        return f.get("func") in ("read_unsigned_var_int", "NumpyIO_read") and "delta_binary_unpack" in (f.get("via") or [])[:3] and f.get("pyx_line") in (182, 253, 254)
+    return False
+
+
+for _k in ("int32-shift-arithmetic-in-bit-unpacking", "write-bitpacked1-signed-char-shift", "zigzag-and-varint-signed-shifts",
+           "bit-unpack-reads-past-short-final-group"):
+    PREDICATES[_k] = (lambda key: (lambda prop, case, f: prop == "C12" and _c12(key, case, f)))(_k)
+
+for _k in ("thrift-serialisation-buffer-overflow", "bit-unpack-32bit-accumulator-width-ge-25", "encode-bitpacked-32bit-accumulator-width-ge-25",
+           "delta-unpack-miniblock-width-ge-29", "bitpacked-run-of-width-0-consumes-one-byte", "delta-page-without-values-reads-a-nonexistent-block"):
+    PREDICATES[_k] = (lambda key, old: (lambda prop, case, f: _c12(key, case, f) if (prop == "C12" and f.get("kind") in ("sanitizer_report", "inner_oracle_failed_under_sanitised_build")) else old(prop, case, f)))(_k, PREDICATES[_k])
